@@ -840,15 +840,15 @@ theorem lookup_inv (P : Payload E) (w : World E) (j : Nat) (q : List E) (s : Sub
       rw [hs] at h1
       simp only at h1
       have hi1 : i1.replaces = [] := by rw [h1]; exact h0
-      have setInv : ∀ i' : Input E, i'.replaces = [] →
-          ∀ x ∈ w.parts.set L.part { p with input := i' }, x.input.replaces = [] := by
-        intro i' hi' x hx
+      have setInv : ∀ p' : Part E, p'.input.replaces = [] →
+          ∀ x ∈ w.parts.set L.part p', x.input.replaces = [] := by
+        intro p' hi' x hx
         rcases mem_set_cases _ _ _ _ hx with hx | hx
         · rw [hx]; exact hi'
         · exact hparts x hx
       cases o1 with
-      | err e => exact ⟨htok, setInv i1 hi1⟩
-      | panic => exact ⟨htok, setInv i1 hi1⟩
+      | err e => exact ⟨htok, setInv _ hi1⟩
+      | panic => exact ⟨htok, setInv _ hi1⟩
       | ok =>
         simp only
         have h2 := Input.build_replaces P i1
@@ -857,9 +857,9 @@ theorem lookup_inv (P : Payload E) (w : World E) (j : Nat) (q : List E) (s : Sub
         simp only at h2
         have hi2 : i2.replaces = [] := by rw [h2]; exact hi1
         cases o2 with
-        | err e => exact ⟨htok, setInv i2 hi2⟩
-        | panic => exact ⟨htok, setInv i2 hi2⟩
-        | ok => exact ⟨htok, setInv i2 hi2⟩
+        | err e => exact ⟨htok, setInv _ hi2⟩
+        | panic => exact ⟨htok, setInv _ hi2⟩
+        | ok => exact ⟨htok, setInv _ hi2⟩
 
 /-- every operation of the API keeps the world invariant, whatever its outcome -/
 theorem step_inv (v : ResetVariant) (P : Payload E) (w : World E) (op : Op E) (h : WInv w) :
